@@ -105,9 +105,10 @@ pub mod spec_rdata_set {
     }
 
     /// [C19.set_classes] the set built from `xs` represents exactly the equality
-    /// classes that occur in `xs` (this is where symmetry and transitivity of
-    /// rd_eq are needed: an element is dropped when it equals a KEPT earlier
-    /// element, which must mean: when it equals ANY earlier element).
+    /// classes that occur in `xs` (this is where transitivity of rd_eq is
+    /// needed: an element is dropped when a KEPT earlier element equals it,
+    /// which must mean: when ANY earlier element equals it; symmetry is used by
+    /// `insert` itself, which tests `x.equals(member)`).
     pub proof fn lemma_set_from_classes(class: u16, ty: u16, xs: Seq<Seq<u8>>, x: Seq<u8>)
         ensures has_eq(class, ty, set_from(class, ty, xs), x) == any_eq(class, ty, xs, x),
         decreases xs.len()
